@@ -114,8 +114,13 @@ LawOpt ==     \* option data of the known options parses against its own row
 
 Exp(x, v) == [parse |-> "ok", wire |-> ComposeRd(x, v), canon |-> CanonRd(x, v),
               len |-> RdLen(x, v), known |-> x \in KnownTypes, issues |-> <<>>]
+\* options of the kinds in OptLayout must be accepted when well-formed; EDE
+\* text that is not (ASCII, hence) UTF-8 breaks an RFC 8914 content rule only
+OptStrict(v) == \A i \in 1..Len(v) :
+  v[i].k = OptCode["EDE"] => \A j \in 3..Len(v[i].v) : v[i].v[j] < 128
 In(mode, rd) == [mode |-> mode, rtype |-> CodeOf(t), msg |-> MsgOf(CodeOf(t), rd),
-                 mayCompress |-> MayCompress(t)]
+                 mayCompress |-> MayCompress(t),
+                 strictOpts |-> mode = "plain" /\ (t = "OPT" => OptStrict(val[1]))]
 
 (* What the implementation did where it deviated (finding, since fixed):    *)
 (* D_alldata_eq_opt_unknown  AllRecordData's == had no arm for the Opt and  *)
